@@ -101,9 +101,18 @@ def parse_harnesses(crate):
                     ann[k] = q if v.startswith('"') else v
                 continue
             t = line.strip()
+            m3 = re.match(r"\w+!\((c\d\d_\w+),", t)  # harness-generating macro: name is the first argument
+            if m3 and not t.startswith("macro_rules"):
+                h = dict(ann)
+                h.update(name=m3.group(1), crate=crate, file=f"harnesses/{crate}/src/{fn}", line=ln, module=fn[:-3])
+                out.append(h)
+                ann = {}
+                continue
             if t.startswith("proof!") or t.startswith("proof_h!"):
                 in_proof = True
-                continue
+                t = t[t.index("!") + 1:].lstrip(" {")
+                if not t:
+                    continue
             if in_proof:
                 m2 = re.match(r"fn (c\d\d\w*)\(\)", t)
                 if m2:
@@ -121,12 +130,13 @@ def select(prop, tier, only):
     hs = []
     for c in CRATES:
         for h in parse_harnesses(c):
-            if not h["name"].startswith(pre):
+            also = [x.strip().lower() + "_" for x in h.get("also", "").split(",") if x.strip()]
+            if not h["name"].startswith(pre) and pre not in also:
                 continue
             if only and only not in h["name"]:
                 continue
             t = h.get("tier", "quick")
-            if tier == "quick" and t != "quick":
+            if t == "off" or (tier == "quick" and t != "quick"):
                 continue
             hs.append(h)
     return hs
@@ -151,7 +161,7 @@ def crate_features(crate):
     return {"core": ["flat"]}.get(crate, [])
 
 
-def codegen(crate, prop, rundir):
+def codegen(crate, prop, rundir, names=None):
     """cargo kani --only-codegen for the harnesses of one property in one crate; returns
     {harness name: metadata entry} with goto files copied into rundir."""
     cdir = os.path.join(HARN, crate)
@@ -163,7 +173,9 @@ def codegen(crate, prop, rundir):
     try:
         t0 = time.time()
         cmd = ["cargo", "kani", "--lib", "--only-codegen", "--no-assertion-reach-checks", "-Z", "stubbing",
-               "--harness", prop.lower() + "_", "--target-dir", os.path.join(tdir, "kani")]
+               "--target-dir", os.path.join(tdir, "kani")]
+        for n in (names or [prop.lower() + "_"]):
+            cmd += ["--harness", n]
         feats = crate_features(crate)
         if feats:
             cmd += ["--features", ",".join(feats)]
@@ -355,7 +367,25 @@ def verify_one(h, meta, rundir, scale):
             unsupported.append(item)
         else:
             failed.append(item)
+    # `expect_panic=<substr>`: the harness assumes an input on which the code under test must
+    # panic (Kani cannot catch a panic; the path ends there). Failed checks whose location or
+    # description contains <substr> are that expected panic: at least one must be reachable
+    # (non-vacuity), the harness's own "returned normally" assertion must hold, and the end of
+    # the harness is allowed - in fact expected - to be unreachable.
+    exp = h.get("expect_panic")
+    expected_hits = []
+    if exp:
+        expected_hits = [x for x in failed if exp in x["where"] or exp in x["desc"]]
+        failed = [x for x in failed if x not in expected_hits]
+        res["expected_panics"] = len(expected_hits)
     res["failed"] = failed
+    if exp and not unwind_fail and not unsupported and not failed:
+        if expected_hits:
+            res["status"] = "ok"
+            res["reach"] = True  # the expected panic site is the reachability witness
+        else:
+            res.update(status="inconclusive", reason="vacuous: expected panic is not reachable")
+        return res
     if unwind_fail:
         res.update(status="inconclusive", reason="unwinding assertion failed: " + unwind_fail[0]["where"],
                    unwind_failed=unwind_fail)
@@ -513,7 +543,7 @@ def main():
         rd = os.path.join(HARN, crate, "target", "runs", f"{prop}-{os.getpid()}")
         os.makedirs(rd, exist_ok=True)
         rundirs[crate] = rd
-        m, dt = codegen(crate, prop, rd)
+        m, dt = codegen(crate, prop, rd, sorted(h["name"] for h in hs if h["crate"] == crate))
         codegen_s += dt
         metas.update(m)
         log(f"[{prop}] codegen crate={crate} harnesses={len(m)} {dt:.1f}s")
